@@ -52,6 +52,11 @@ func c18Scenarios(tier string) []c07Params {
 		{Name: "evalsha-vs-gets", Pre: append(append([][]string{}, pre...), []string{"SCRIPT", "LOAD", scr}), Conns: [][][]string{{{"EVALSHA", Sha1Sum(scr), "0"}}, two("GET k a", "GET k b")}, Model: map[string][][]string{"0.0": scrModel}, Prop: "C18"},
 		{Name: "evalrosha-vs-set", Pre: append(append([][]string{}, pre...), []string{"SCRIPT", "LOAD", "return {tile38.call('GET','k','a'), tile38.call('GET','k','a')}"}), Conns: [][][]string{{{"EVALROSHA", Sha1Sum("return {tile38.call('GET','k','a'), tile38.call('GET','k','a')}"), "0"}}, one("SET k a POINT 3 3")}, Prop: "C18"},
 	}
+	// the same script under a TIMEOUT prefix: still one indivisible step under the exclusive lock
+	scs = append(scs,
+		c07Params{Name: "timeout-eval-vs-gets", Pre: pre, Conns: [][][]string{{{"TIMEOUT", "5", "EVAL", scr, "0"}}, two("GET k a", "GET k b")}, Model: map[string][][]string{"0.0": scrModel}, Prop: "C18"},
+		c07Params{Name: "timeout-eval-vs-scan", Pre: pre, Conns: [][][]string{{{"TIMEOUT", "5", "EVAL", "tile38.call('SET','k','n1','POINT',7,7); return tile38.call('SET','k','n2','POINT',8,8)", "0"}}, one("SCAN k")}, Model: map[string][][]string{"0.0": {w("SET k n1 POINT 7 7"), w("SET k n2 POINT 8 8")}}, Prop: "C18"},
+	)
 	// two read-only scripts at once (shared lock, interpreters from one pool, one script
 	// cache): function-entry scheduling points, one preemption (thorough: two)
 	roA := "return {tile38.call('GET','k','a'), ARGV[1]}"
@@ -370,7 +375,7 @@ func c18PoolStates(s *Server) []*lua.LState {
 }
 
 func checkC18Box(job *Job, res *Result) {
-	res.Rule = "explicit enumeration: (1) everything reachable from the globals table of each pooled Lua state (tables, metatables incl. the string metatable, function environments, upvalues) - names subset of the documented allow-list, no Go function of a forbidden library; (2) assignment to 20 new global names; (3) all sequences of <= 3 commands over {EVAL ok, EVAL syntax error, EVAL raising, EVALSHA unknown, SCAN WHEREEVAL, SCRIPT LOAD, EVALRO ok, SCAN WHEREEVAL indexing a missing field, SCAN WHEREEVAL raising, EVAL / EVALRO / EVALNA writing into their empty KEYS / ARGV, EVAL parking its arguments in a library table / in the array part of _G / in a replaced global} followed by an inspection of every pooled state; distinct = distinct reachable paths + sequences"
+	res.Rule = "explicit enumeration: (1) everything reachable from the globals table of each pooled Lua state (tables, metatables incl. the string metatable, function environments, upvalues) - names subset of the documented allow-list, no Go function of a forbidden library; (2) assignment to 20 new global names; (3) all sequences of <= 3 commands over {EVAL ok, EVAL syntax error, EVAL raising, EVALSHA unknown, SCAN WHEREEVAL, SCRIPT LOAD, EVALRO ok, SCAN WHEREEVAL indexing a missing field, SCAN WHEREEVAL raising, EVAL / EVALRO / EVALNA writing into their empty KEYS / ARGV, EVAL parking its arguments in a library table / in the array part of _G / in a replaced global, EVAL / EVALRO refused for an empty KEYS / ARGV element} followed by an inspection of every pooled state; distinct = distinct reachable paths + sequences"
 	if job.Shard != 0 && job.NShards > 1 && job.Replay == nil {
 		// sequences are sharded, the walk runs in shard 0
 	}
@@ -396,6 +401,9 @@ func checkC18Box(job *Job, res *Result) {
 		{"EVAL", "table.insert(_G, KEYS[1]); return 1", "1", "secretkey", "secretarg"},
 		// ... or in a replacement of an existing global
 		{"EVAL", "os = {stash = ARGV[1]}; return 1", "1", "secretkey", "secretarg"},
+		// refused calls: an empty KEYS / ARGV element
+		{"EVAL", "return 1", "1", ""},
+		{"EVALRO", "return 1", "0", ""},
 	}
 	if job.Shard == 0 {
 		x := runExec(job, freezeAllBut(), func(x *Exec) {
@@ -512,7 +520,18 @@ func checkC18Box(job *Job, res *Result) {
 				c.Do(syms[k]...)
 				names = append(names, strings.Join(syms[k][:2], " "))
 			}
+			seenState := map[*lua.LState]int{}
 			for i, L := range c18PoolStates(in.S) {
+				if j, dup := seenState[L]; dup {
+					// the shutdown path closes every pooled interpreter: closing one twice takes the
+					// process down before this result is written - announce the finding first
+					res.Pending("C18/pool-holds-one-interpreter-twice:after-"+strings.ToLower(strings.Fields(names[len(names)-1])[0]),
+						fmt.Sprintf("after [%s] the pool holds the same interpreter at positions %d and %d", strings.Join(names, " ; "), j, i), map[string]any{"sequence": names})
+					res.Violate("C18/pool-holds-one-interpreter-twice:after-"+strings.ToLower(strings.Fields(names[len(names)-1])[0]),
+						fmt.Sprintf("after [%s] the pool holds the same interpreter at positions %d and %d: two scripts running at once would share it", strings.Join(names, " ; "), j, i),
+						map[string]any{"sequence": names})
+				}
+				seenState[L] = i
 				g := L.Get(lua.GlobalsIndex).(*lua.LTable)
 				for _, n := range leftovers {
 					if v := g.RawGetString(n); v != lua.LNil {
